@@ -137,7 +137,7 @@ def plain_job(memtype):
             pairs = [(2, None), (3, None)]      # no default table: the DDR/LPDDR PHYs use a fixed CL (3; 2 is the other JEDEC value)
         CL, CWL = z3.Int("CL"), z3.Int("CWL")
         dom = z3.Or(*[z3.And(CL == c, CWL == (w if w is not None else 0)) for c, w in pairs])
-        for nph in ({"SDR": [1, 2, 4], "DDR": [2], "LPDDR": [2], "DDR2": [2], "DDR3": [2, 4], "DDR4": [4]}[memtype]):
+        for nph in ({"SDR": [1, 2, 4], "DDR": [2], "LPDDR": [2], "DDR2": [2], "DDR3": [2, 4], "DDR4": [4, 2]}[memtype]):
             ps, ts = O(), O()
             ps.cl = pysym.SymEnum.of_int_var(CL, sorted({c for c, w in pairs}))
             ps.cwl = pysym.SymEnum.of_int_var(CWL, sorted({w for c, w in pairs if w is not None})) if memtype in ("DDR3", "DDR4") else None
@@ -186,6 +186,20 @@ def plain_job(memtype):
                         d = decode_cwl(memtype, v)
                         bad.append(c if d is None else z3.And(c, CWL != d))
                 solve(recs, label, "mr2_cas_write_latency_decodes_to_phy_cwl", [dom, z3.Or(*bad)] if bad else [z3.BoolVal(False)])
+            if memtype in ("DDR3", "DDR4"):
+                # write-recovery table consistency over the WHOLE table (tWTR free, not only what the library modules reach): whatever
+                # the generator derives WR from, a controller that waits longer must never get a shorter JEDEC-decoded write recovery
+                TW2, WR1, WR2 = z3.Int("TWTR2"), z3.Int("WR1"), z3.Int("WR2")
+                a = mr0s[-1][1] if isinstance(mr0s[-1][1], pysym.SymEnum) else pysym.SymEnum([(z3.BoolVal(True), mr0s[-1][1])])
+                dec = [(c, decode_mr0(memtype, v)["wr"]) for c, v in a.cases]
+                dec = [(c, w) for c, w in dec if w is not None]
+                if dec:
+                    one = [z3.Or(*[c for c, w in dec])] + [z3.Implies(c, WR1 == w) for c, w in dec]
+                    two = [z3.substitute(x, (TW, TW2), (WR1, WR2)) for x in one]
+                    mono = [dom] + one + two + [TW < TW2]
+                    solve(recs, label, "mr0_write_recovery_decodes_monotonically_in_controller_twtr(whole_table)", mono + [WR1 > WR2],
+                          extra=dict(plain=dict(memtype=memtype, nphases=nph)))
+                    solve(recs, label, "witness_write_recovery_grows_with_twtr", mono + [WR1 < WR2], expect="sat")
             solve(recs, label, "witness_domain_nonempty", [dom], expect="sat")
     except Exception as e:
         import traceback
@@ -731,12 +745,30 @@ def replay_custom(data):
             print("VIOLATION property=C17 replay=%s" % data.get("path", "<file>"))
             return 1
         return 0
-    rp = replay_wr(data["cls"], data["rec"])
+    rp = replay_plain(data["rec"]) if data.get("cls") is None and data["rec"].get("plain") else replay_wr(data["cls"], data["rec"])
     print("re-run of the real generators with doubles:", rp)
     if rp.get("confirmed"):
         print("VIOLATION property=C17 replay=%s" % data.get("path", "<file>"))
         return 1
     return 0
+
+
+def replay_plain(rec):
+    """re-run the REAL generator concretely at the model's (CL, CWL, tWTR, tWTR2) and re-decode both MR0 values"""
+    from litedram import init
+    pl, mdl = rec["plain"], rec["model"]
+    out = dict(pl)
+    wrs = []
+    for key in ("TWTR", "TWTR2"):
+        ps, ts = O(), O()
+        ps.cl, ps.cwl, ps.nphases, ps.memtype, ps.is_rdimm = int(mdl["CL"]), int(mdl["CWL"]), pl["nphases"], pl["memtype"], False
+        ts.tWTR, ts.fine_refresh_mode = int(mdl[key]), "1x"
+        seq, _ = getattr(init, "get_%s_phy_init_sequence" % pl["memtype"].lower())(ps, ts)
+        mr0 = [e for e in seq if e[2] == 0 and e[3] == init.cmds["MODE_REGISTER"]][-1][1]
+        wrs.append(decode_mr0(pl["memtype"], mr0)["wr"])
+        out[key] = dict(tWTR=ts.tWTR, mr0=mr0, decoded_wr=wrs[-1])
+    out["confirmed"] = None not in wrs and int(mdl["TWTR"]) < int(mdl["TWTR2"]) and wrs[0] > wrs[1]
+    return out
 
 
 def run(ctx):
@@ -773,9 +805,9 @@ def run(ctx):
                 continue
             if r["result"] == "sat":
                 goal = r["q"].split("(")[0]
-                if clsname is not None:
+                if clsname is not None or r.get("plain"):
                     try:
-                        rp = replay_wr(clsname, r)
+                        rp = replay_wr(clsname, r) if clsname is not None else replay_plain(r)
                     except Exception as e:
                         rp = dict(confirmed=False, error=repr(e))
                     r["replay"] = rp
